@@ -5,10 +5,19 @@ required fields, struct and enum fallbacks, newtypes (key and non-key targets), 
 kind, services with inline structs/enums in args/ok/err/events and both fallbacks, imports with
 `schema::Type` references, identifiers that are Rust keywords (emitted as r#...), doc comments with
 markdown links (so that `#[aldrin(doc = ...)]` attributes are emitted with --introspection), and
-recursion through box/vec/map.  It AVOIDS exactly the four known failure classes:
+recursion through box/vec/map, and a systematic CROSS-SCHEMA layer (class Gen, `cross`): newtype
+chains of 1..4 links whose links are spread over the schema and the schemas it imports (direct,
+two-level and mutual imports), ending in every key-capable built-in and in non-key types, used as
+map keys / set elements exactly when they resolve to a key type; `#[rust(impl_*)]` towers, recursion
+knots, imported array-length constants, services and fallback types whose referenced definition lives
+in an imported schema and itself refers to names local to that schema.  What a type derives is
+computed from the AST by class Env (the generator's own reading of codegen's rules).
+It AVOIDS exactly the four known failure classes:
   (a) a doc line containing `"` or `\\`; (b) a const named like a Rust keyword; (c) a string
-  constant containing a bare CR; (d) the identifiers Self, self, crate, super, _.
-SECOND stream: small schemas that contain exactly one of (a)-(d) each.
+  constant containing a bare CR; (d) the identifiers Self, self, crate, super, _; (f) a newtype or
+  const whose name equals a struct field name (or the snake-case form of a payload variant name) of
+  the same schema.
+SECOND stream: small schemas that contain exactly one of (a)-(f) each.
 
 The same AST is rendered to schema text and to the wire-type table (types.txt) that the value
 generator (harness `derive`), the corpus runner and the model driver share.
@@ -26,6 +35,11 @@ RAW_OK = ["type", "match", "loop", "move", "ref", "mut", "impl", "trait", "where
           "else", "let", "pub", "use", "mod", "dyn", "async", "await", "as", "break", "continue", "extern",
           "static", "unsafe", "return", "yield", "abstract", "become", "do", "final", "macro", "override", "priv",
           "typeof", "virtual", "try", "true", "false", "gen"]
+# keywords kept for the names of newtypes: a newtype is a tuple struct, its name also lives in Rust's value
+# namespace, and a struct field (or the snake-case form of a payload variant) of the same name in the same
+# schema does not compile (class f); so these never become field / variant names
+NEWTYPE_KW = ["typeof", "virtual", "priv", "macro", "become", "final"]
+FIELD_KW = [k for k in RAW_OK if k not in NEWTYPE_KW]
 RUST_KEYWORDS_FOR_CONST = ["match", "type", "loop", "move", "impl", "fn", "let", "mod", "pub", "ref", "static",
                            "struct", "enum", "trait", "use", "where", "while", "async", "await", "dyn", "try"]
 FORBIDDEN_IDENTS = ["Self", "self", "crate", "super", "_"]
@@ -59,6 +73,11 @@ class Schema:
         self.defs = []
         self.label = "main"       # or a-d
         self.detail = {}
+        self.index = 0            # position in the main stream
+        self.used = set()         # definition names taken (lower case, no underscores)
+        self.xnames = []          # types added by the cross-schema layer
+        self.xuse = None          # the struct collecting use sites of cross-schema newtypes
+        self.kit = {}             # small local definitions other schemas' chains end in
 
     def find(self, name):
         for d in self.defs:
@@ -192,6 +211,115 @@ def render(s):
     return out + "\n".join(render_def(d) for d in s.defs)
 
 
+# ---------------------------------------------------------------- what a definition derives (from the AST)
+
+STD = ["impl_copy", "impl_partial_eq", "impl_eq", "impl_partial_ord", "impl_ord", "impl_hash"]
+STD_ALL = frozenset(STD)
+KEY_DERIVES = frozenset(["impl_partial_eq", "impl_eq", "impl_partial_ord", "impl_ord", "impl_hash"])
+STD_PATH = {"impl_copy": "::std::marker::Copy", "impl_partial_eq": "::std::cmp::PartialEq", "impl_eq": "::std::cmp::Eq",
+            "impl_partial_ord": "::std::cmp::PartialOrd", "impl_ord": "::std::cmp::Ord", "impl_hash": "::std::hash::Hash"}
+
+
+def close_derives(a):
+    """derive(Eq) needs PartialEq, derive(Ord) needs Eq + PartialOrd, derive(PartialOrd) needs PartialEq"""
+    a = set(a)
+    if "impl_eq" in a or "impl_hash" in a:
+        a.add("impl_partial_eq")
+    if "impl_ord" in a:
+        a |= {"impl_partial_ord", "impl_eq", "impl_partial_eq"}
+    if "impl_partial_ord" in a:
+        a.add("impl_partial_eq")
+    return sorted(a)
+
+
+class Env:
+    """name resolution across schemas and the properties the code generator (codegen/src/rust.rs
+    newtype_properties, RustAttributes) and rustc's std derives attach to a type, computed from this
+    module's AST alone"""
+
+    def __init__(self, by_name):
+        self.by_name = by_name
+
+    def resolve(self, s, t):
+        sch = s if t[1] is None else self.by_name.get(t[1])
+        return sch, (sch.find(t[2]) if sch is not None else None)
+
+    def chain_end(self, s, t):
+        """follow named references through newtypes: (schema, built-in/generic type tuple | the struct
+        or enum Def the chain ends in | None)"""
+        for _ in range(64):
+            if t[0] != "ref":
+                return s, t
+            sch, d = self.resolve(s, t)
+            if d is None:
+                return s, None
+            if d.kind != "newtype":
+                return sch, d
+            s, t = sch, d.ty
+        return s, None
+
+    def is_key(self, s, t):
+        """t (seen from schema s) is a legal map key / set element: a key built-in or a newtype chain
+        ending in one (parser util::resolves_to_key_type; codegen derives Hash/Eq/Ord/KeyTag for it)"""
+        _, e = self.chain_end(s, t)
+        return isinstance(e, tuple) and e[0] in KEYS
+
+    def derives_default(self, s, d):
+        """codegen: a struct derives Default iff it has no required field; a newtype iff its chain ends
+        in such a struct"""
+        if d.kind == "struct":
+            return not any(f["req"] for f in d.fields)
+        if d.kind != "newtype":
+            return False
+        _, e = self.chain_end(s, d.ty)
+        return isinstance(e, Def) and e.kind == "struct" and not any(f["req"] for f in e.fields)
+
+    def def_traits(self, s, d):
+        have = set()
+        for a in d.attrs:
+            have |= set(x for x in a if x in STD_ALL)
+        if d.kind == "newtype" and self.is_key(s, d.ty):
+            have |= KEY_DERIVES
+        return frozenset(have)
+
+    def std_traits(self, s, t):
+        """the std traits (as impl_* names) the Rust type of t is known to implement; conservative:
+        library types this module has not looked at count as implementing none"""
+        k = t[0]
+        if k in INTS or k in ("bool", "unit", "uuid"):
+            return STD_ALL
+        if k == "string":
+            return STD_ALL - {"impl_copy"}
+        if k in ("f32", "f64"):
+            return frozenset(["impl_copy", "impl_partial_eq", "impl_partial_ord"])
+        if k in ("option", "array"):
+            return self.std_traits(s, t[1])
+        if k == "box":
+            return self.std_traits(s, t[1]) - {"impl_copy"}
+        if k == "vec":
+            return frozenset() if t[1] == ("u8",) else self.std_traits(s, t[1]) - {"impl_copy"}
+        if k == "result":
+            return self.std_traits(s, t[1]) & self.std_traits(s, t[2])
+        if k == "ref":
+            sch, d = self.resolve(s, t)
+            return self.def_traits(sch, d) if d is not None and d.kind in ("struct", "enum", "newtype") else frozenset()
+        return frozenset()
+
+    def expected_impls(self, s):
+        """{type key: [Rust trait paths]} the generated types of schema s must implement"""
+        out = {}
+        for name, d in all_typedefs(s):
+            tr = [STD_PATH[x] for x in STD if x in self.def_traits(s, d)]
+            if self.derives_default(s, d):
+                tr.append("::std::default::Default")
+            if d.kind == "newtype" and self.is_key(s, d.ty):
+                tr.append("::aldrin::core::tags::PrimaryKeyTag")
+            if tr:
+                out["%s.%s" % (s.name, name)] = tr
+        return out
+
+
+
 # ---------------------------------------------------------------- wire-type table
 
 def all_typedefs(s):
@@ -214,20 +342,14 @@ def all_typedefs(s):
     return out
 
 
-class Table:
+class Table(Env):
     def __init__(self, schemas):
-        self.by_name = {s.name: s for s in schemas}
-
-    def resolve(self, s, t):
-        sch = s if t[1] is None else self.by_name[t[1]]
-        return sch, sch.find(t[2])
+        Env.__init__(self, {s.name: s for s in schemas})
 
     def key_kind(self, s, t):
         """the built-in key type a map/set key type resolves to (through newtypes)"""
-        while t[0] == "ref":
-            s, d = self.resolve(s, t)
-            t = d.ty
-        return t[0]
+        _, e = self.chain_end(s, t)
+        return e[0]
 
     def wire(self, s, t):
         k = t[0]
@@ -287,6 +409,12 @@ class Gen:
         self.r = random.Random(seed)
         self.schemas = []
         self.uuid_n = 0
+        self.by_name = {}
+        self.env = Env(self.by_name)
+        self.bias = []            # (schema|None, name): cross-schema definitions ty() prefers
+        self.bias_keys = []       # the key-capable ones among them
+        self.decks = {}
+        self.xstats = {}          # what the cross-schema layer produced (for the evidence file)
 
     def uuid(self):
         return "%08x-%04x-4%03x-8%03x-%012x" % (self.r.getrandbits(32), self.r.getrandbits(16), self.r.getrandbits(12),
@@ -308,7 +436,7 @@ class Gen:
             elif style == "shouty":
                 w = w.upper()
             elif style == "snake" and self.chance(0.18):
-                w = self.r.choice(RAW_OK)
+                w = self.r.choice(FIELD_KW)
             low = w.lower().replace("_", "")
             if low in used:
                 continue
@@ -359,20 +487,12 @@ class Gen:
         return out
 
     def is_key_newtype(self, s, d):
-        if d.kind != "newtype":
-            return False
-        t = d.ty
-        seen = 0
-        while t[0] == "ref" and seen < 10:
-            sch = s if t[1] is None else self.by_name[t[1]]
-            d2 = sch.find(t[2])
-            if d2 is None or d2.kind != "newtype":
-                return False
-            s, t = sch, d2.ty
-            seen += 1
-        return t[0] in KEYS
+        return d.kind == "newtype" and self.env.is_key(s, d.ty)
 
     def key_type(self, s):
+        if self.bias_keys and self.chance(0.6):
+            sc, n = self.r.choice(self.bias_keys)
+            return ("ref", sc, n)
         c = self.named(s, self.is_key_newtype)
         if c and self.chance(0.25):
             sc, n = self.r.choice(c)
@@ -386,6 +506,9 @@ class Gen:
         """a random type; `selfname` may be referenced only below a recursion breaker"""
         r = self.r.random()
         if depth >= 3 or r < 0.42:
+            if self.bias and self.chance(0.55):
+                sc, n = self.r.choice(self.bias)
+                return ("ref", sc, n)
             types = self.named(s, lambda sc, d: d.kind in ("struct", "enum", "newtype") and self.ref_ok(d.name))
             if types and self.chance(0.4):
                 sc, n = self.r.choice(types)
@@ -508,13 +631,11 @@ class Gen:
 
     def schema(self, name, earlier):
         s = Schema(name)
-        if not hasattr(self, "by_name"):
-            self.by_name = {}
         self.by_name.update({x.name: x for x in earlier})
         self.by_name[name] = s
         if earlier and self.chance(0.6):
             s.imports = sorted(set(self.r.sample([e.name for e in earlier], min(len(earlier), self.r.randint(1, 2)))))
-        used = set()
+        used = s.used = set()
         n = self.r.randint(3, 9)
         for _ in range(n):
             c = self.r.random()
@@ -530,10 +651,8 @@ class Gen:
                 d = self.const(s, used)
             else:
                 d = self.service(s, self.fresh(used, "camel"))
-            if d.kind in ("struct", "enum") and self.chance(0.15) and self.simple(s, d):
-                d.attrs.append(self.r.sample(["impl_partial_eq", "impl_eq", "impl_partial_ord", "impl_ord", "impl_hash",
-                                              "impl_copy"], self.r.randint(1, 6)))
-                d.attrs[0] = self.close_derives(d.attrs[0])
+            if d.kind in ("struct", "enum") and self.chance(0.2):
+                self.add_attrs(s, d)
             s.defs.append(d)
         # a keyword-named type now and then (raw identifier in type position)
         if self.chance(0.3):
@@ -548,30 +667,420 @@ class Gen:
         # imports that nothing refers to are only a warning; keep them
         return s
 
-    def simple(self, s, d):
-        """only integer / bool fields: every std derive applies"""
-        ok = lambda t: t[0] in INTS + ["bool"]
-        if d.kind == "struct":
-            return not d.fallback and all(ok(f["ty"]) for f in d.fields)
-        return not d.fallback and all(v["ty"] is None or ok(v["ty"]) for v in d.variants)
+    def derivable(self, s, d):
+        """the #[rust(impl_*)] options that apply to struct/enum d: every field type implements the trait
+        (Env.std_traits follows references into other schemas)"""
+        tr = STD_ALL
+        types = [f["ty"] for f in d.fields] if d.kind == "struct" else [v["ty"] for v in d.variants if v["ty"] is not None]
+        for t in types:
+            tr = tr & self.env.std_traits(s, t)
+        if d.fallback:
+            tr = tr & {"impl_partial_eq", "impl_eq"}      # UnknownFields / UnknownVariant: PartialEq + Eq only
+        return tr
+
+    def add_attrs(self, s, d):
+        av = sorted(self.derivable(s, d))
+        if not av:
+            return
+        a = close_derives(self.r.sample(av, self.r.randint(1, len(av))))
+        if len(a) > 1 and self.chance(0.2):
+            k = self.r.randint(1, len(a) - 1)
+            d.attrs += [a[:k], a[k:]]                     # two #[rust(..)] attributes
+        else:
+            d.attrs.append(a)
 
     def close_derives(self, a):
-        a = set(a)
-        if "impl_copy" in a:
-            pass  # Clone is always derived
-        if "impl_eq" in a or "impl_hash" in a:
-            a.add("impl_partial_eq")
-        if "impl_ord" in a:
-            a |= {"impl_partial_ord", "impl_eq", "impl_partial_eq"}
-        if "impl_partial_ord" in a:
-            a.add("impl_partial_eq")
-        return sorted(a)
+        return close_derives(a)
 
     def main_stream(self, n, prefix="m"):
+        """schema i may import the (up to 4) schemas before it that belong to the same epoch of EPOCH
+        schemas: import chains are up to EPOCH deep, and the transitive closure of a schema (what has to be
+        compiled next to it) stays bounded however long the stream is"""
         out = []
         for i in range(n):
-            out.append(self.schema("%s%d" % (prefix, i), out[-4:]))
+            window = [w for w in out[-4:] if w.index // self.EPOCH == i // self.EPOCH]
+            s = self.schema("%s%d" % (prefix, i), window)
+            s.index = i
+            self.cross(s, window)
+            out.append(s)
         return out
+
+    # ------------------------------------------------------------ cross-schema layer
+    #
+    # Every main-stream schema s gets, besides its random body, definitions that are spread over s and
+    # up to two partner schemas (the `cluster`): a reference from a definition in p to one in q is an
+    # Intern name when q is p and `q::Name` (plus `import q;`) otherwise.  Imports point backwards in
+    # the stream; inside a cell of CELL consecutive schemas they may also point forwards, which gives
+    # mutual imports (the parser and the code generator accept import cycles) and with them chains
+    # that alternate s -> x -> s -> x and recursion through another schema.
+
+    CELL = 4
+    EPOCH = 8
+    SHAPES = [(h, k) for h in ["", "L", "X", "LL", "LX", "XL", "XX", "LLL", "LLX", "LXL", "LXX", "XLL", "XLX", "XXL", "XXX"]
+              for k in (True, False)]
+    NONKEY_ENDS = ["bool", "f32", "f64", "bytes", "value", "object_id", "service_id", "lifetime", "unit", "vecu8",
+                   "option_key", "set_key", "vec_rec", "map_opt", "array_rec", "result_kit", "struct_opt", "struct_rec",
+                   "enum_leaf", "sender_leaf", "box_rec"]
+
+    def count(self, k, sub=None, n=1):
+        if sub is None:
+            self.xstats[k] = self.xstats.get(k, 0) + n
+        else:
+            d = self.xstats.setdefault(k, {})
+            d[sub] = d.get(sub, 0) + n
+
+    def can_import(self, p, q):
+        return q.index < p.index or p.index // self.CELL == q.index // self.CELL
+
+    def xref(self, p, q, name):
+        """the reference to q's definition `name` as written in schema p"""
+        if q is p:
+            return ("ref", None, name)
+        if q.name not in p.imports:
+            p.imports = sorted(p.imports + [q.name])
+            self.count("imports_added")
+            if q.index > p.index:
+                self.count("forward_imports")
+        return ("ref", q.name, name)
+
+    def draw(self, deck, items):
+        """without replacement from a shuffled deck that is refilled when empty: every item turns up
+        once per len(items) draws"""
+        d = self.decks.get(deck)
+        if not d:
+            d = list(items)
+            self.r.shuffle(d)
+            self.decks[deck] = d
+        return d.pop()
+
+    def hop(self, p, kind, cluster):
+        """the schema the next definition goes to: L = stays in p, X = another schema of the cluster
+        that p may import (stays in p when there is none)"""
+        if kind == "X":
+            feas = [q for q in cluster if q is not p and self.can_import(p, q)]
+            if feas:
+                return self.r.choice(feas)
+        return p
+
+    def xadd(self, p, d):
+        p.defs.append(d)
+        if d.kind in ("struct", "enum", "newtype"):
+            p.xnames.append(d.name)
+        self.count("definitions", d.kind)
+
+    def visible(self, p, pred=None):
+        """cross-layer types schema p can name"""
+        out = [(None, n) for n in p.xnames]
+        for i in p.imports:
+            out += [(i, n) for n in self.by_name[i].xnames]
+        if pred is not None:
+            out = [(sc, n) for sc, n in out if pred(("ref", sc, n))]
+        return out
+
+    def type_name(self, p, tuple_struct=False):
+        """mostly CamelCase; now and then a Rust keyword (emitted as r#..; for newtypes only keywords that
+        are never field names, see NEWTYPE_KW)"""
+        if self.chance(0.06):
+            kws = [k for k in (NEWTYPE_KW if tuple_struct else RAW_OK) if k.lower() not in p.used and self.ref_ok(k)]
+            if kws:
+                kw = self.r.choice(kws)
+                p.used.add(kw)
+                return kw
+        return self.fresh(p.used, "camel")
+
+    def kit_def(self, p, what):
+        """small definitions local to p that refer to each other by local names (const <- enum <- struct
+        with required fields <- struct without); created on demand, at most one of each per schema"""
+        if what in p.kit:
+            return p.kit[what]
+        used = set()
+        if what == "len":
+            d = Def("const", self.fresh(p.used, "shouty"), ckind=self.r.choice(INTS), value=str(self.r.randint(1, 4)))
+        elif what == "leaf":
+            d = Def("enum", self.type_name(p), variants=[], fallback=None)
+            d.variants.append({"name": camel(self.fresh(used, "snake")), "id": self.r.randint(0, 3), "ty": None, "doc": []})
+            d.variants.append({"name": camel(self.fresh(used, "snake")), "id": self.r.randint(4, 9),
+                               "ty": (self.r.choice(KEYS),), "doc": []})
+            if self.chance(0.5):
+                d.variants.append({"name": camel(self.fresh(used, "snake")), "id": self.r.randint(10, 70000),
+                                   "ty": ("array", (self.r.choice(["u8", "bool", "string"]),),
+                                          ("ref", None, self.kit_def(p, "len"))), "doc": []})
+            if self.chance(0.5):
+                d.fallback = camel(self.fresh(used, "snake"))
+        elif what == "rec":
+            d = Def("struct", self.type_name(p), fields=[], fallback=None)
+            d.fields.append({"name": self.fresh(used, "snake"), "id": self.r.randint(0, 5), "req": True,
+                             "ty": ("ref", None, self.kit_def(p, "leaf")), "doc": []})
+            d.fields.append({"name": self.fresh(used, "snake"), "id": self.r.randint(6, 20), "req": self.chance(0.5),
+                             "ty": ("array", (self.r.choice(["u16", "i64", "f32", "uuid"]),),
+                                    ("ref", None, self.kit_def(p, "len"))), "doc": []})
+            if self.chance(0.5):
+                d.fallback = self.fresh(used, "snake")
+        else:
+            d = Def("struct", self.type_name(p), fields=[], fallback=None)
+            d.fields.append({"name": self.fresh(used, "snake"), "id": self.r.randint(0, 5), "req": False,
+                             "ty": ("ref", None, self.kit_def(p, "leaf")), "doc": []})
+            d.fields.append({"name": self.fresh(used, "snake"), "id": self.r.randint(6, 20), "req": False,
+                             "ty": self.r.choice([("vec", ("ref", None, self.kit_def(p, "rec"))),
+                                                  ("option", ("ref", None, self.kit_def(p, "rec"))),
+                                                  (self.r.choice(LEAVES),)]), "doc": []})
+            if self.chance(0.5):
+                d.fallback = self.fresh(used, "snake")
+        p.kit[what] = d.name
+        self.xadd(p, d)
+        return d.name
+
+    def end_type(self, p, end, cluster):
+        """the type a newtype chain ends in, as written in schema p; the composite ends refer to kit
+        definitions of p or (one more hop) of a schema p imports"""
+        if end in LEAVES:
+            return (end,)
+        if end == "vecu8":
+            return ("vec", ("u8",))
+        if end == "option_key":
+            return ("option", (self.r.choice(KEYS),))
+        if end == "set_key":
+            return ("set", (self.r.choice(KEYS),))
+        q = self.hop(p, self.r.choice("LX"), cluster)
+        ref = lambda what: self.xref(p, q, self.kit_def(q, what))
+        if end == "struct_opt":
+            return ref("opt")
+        if end == "struct_rec":
+            return ref("rec")
+        if end == "enum_leaf":
+            return ref("leaf")
+        if end == "vec_rec":
+            return ("vec", ref("rec"))
+        if end == "box_rec":
+            return ("box", ref("rec"))
+        if end == "map_opt":
+            return ("map", (self.r.choice(KEYS),), ref("opt"))
+        if end == "array_rec":
+            return ("array", ref("rec"), ref("len"))
+        if end == "result_kit":
+            return ("result", ref("leaf"), ref("opt"))
+        if end == "sender_leaf":
+            return (self.r.choice(["sender", "receiver"]), ref("leaf"))
+        raise ValueError(end)
+
+    def chain(self, s, cluster):
+        """newtype chain of 1..4 links, head in s; shape = where each next link lives (L: same schema,
+        Intern name; X: another schema, `q::Name`) x (key end | non-key end), drawn from a deck over all
+        30 shapes: every shape turns up once per 30 chains (10 schemas).  Returns [(schema, name)] head
+        first."""
+        hops, key_end = self.draw("chain_shape", self.SHAPES)
+        n = len(hops) + 1
+        end = self.draw("key_end", KEYS) if key_end else self.draw("nonkey_end", self.NONKEY_ENDS)
+        places = [s]
+        for h in hops:
+            places.append(self.hop(places[-1], h, cluster))
+        ty = self.end_type(places[-1], end, cluster)
+        names = [self.type_name(p, True) for p in places]
+        tr = self.env.std_traits(places[-1], ty)
+        attrs = []
+        if key_end:
+            # Hash/Eq/Ord come from the code generator's key-type decision; only Copy can be asked for
+            if "impl_copy" in tr and self.chance(0.35):
+                attrs = ["impl_copy"]
+        elif tr and self.chance(0.4):
+            attrs = close_derives(self.r.sample(sorted(tr), self.r.randint(1, len(tr))))
+        for k in reversed(range(n)):
+            p = places[k]
+            target = ty if k == n - 1 else self.xref(p, places[k + 1], names[k + 1])
+            d = Def("newtype", names[k], ty=target)
+            if attrs:
+                d.attrs = [list(attrs)]
+            if k < n - 1 and self.chance(0.4):
+                d.doc = ["%s of [%s]" % (self.r.choice(WORDS), ref_text(target))]
+            self.xadd(p, d)
+        actual = "".join("L" if places[k + 1] is places[k] else "X" for k in range(n - 1))
+        self.count("chains")
+        self.count("chain_links", str(n))
+        self.count("chain_shapes", (actual or "-") + (":key" if key_end else ":nonkey"))
+        self.count("chain_ends", end)
+        if key_end and "XL" in actual:
+            self.count("key_chains_continuing_locally_in_an_imported_schema")
+        if len({p.name for p in places}) >= 3:
+            self.count("chains_over_three_schemas")
+        return [(places[k], names[k]) for k in range(n)]
+
+    def small_type(self, p):
+        v = self.visible(p)
+        if v and self.chance(0.5):
+            sc, nm = self.r.choice(v)
+            return ("ref", sc, nm)
+        return (self.r.choice(LEAVES),)
+
+    def use(self, p, ty, req=False):
+        """a field of type ty in p's use-site struct"""
+        u = p.xuse
+        if u is None or len(u.fields) >= 10:
+            u = p.xuse = Def("struct", self.fresh(p.used, "camel"), fields=[], fallback=None)
+            u.fused = set()
+            if self.chance(0.4):
+                u.fallback = self.fresh(u.fused, "snake")
+            p.defs.append(u)
+            self.count("definitions", "struct")
+        u.fields.append({"name": self.fresh(u.fused, "snake"), "id": max([f["id"] for f in u.fields] + [-1]) + self.r.randint(1, 3),
+                         "req": req, "ty": ty, "doc": []})
+
+    def use_link(self, p, name, head):
+        """use sites of the cross-layer newtype `name` in its own schema p: as map key / set element
+        exactly when it resolves to a key type"""
+        t = ("ref", None, name)
+        if self.env.is_key(p, t):
+            forms = [("map", t, self.small_type(p)), ("set", t)]
+            self.count("key_uses", "head" if head else "link", 2 if head else 1)
+            for f in (forms if head else [self.r.choice(forms)]):
+                self.use(p, f if self.chance(0.7) else ("option", f), self.chance(0.25))
+        else:
+            forms = [t, ("option", t), ("vec", t), ("map", (self.r.choice(KEYS),), t), ("result", t, ("u8",)),
+                     ("array", t, 2), ("box", t)]
+            self.count("nonkey_uses")
+            self.use(p, self.r.choice(forms), self.chance(0.25))
+
+    def leaf_with(self, p, want):
+        """a field type whose Rust type implements every trait in `want`"""
+        vis = self.visible(p, lambda t: want <= self.env.std_traits(p, t))
+        if vis and self.chance(0.5):
+            sc, nm = self.r.choice(vis)
+            t = ("ref", sc, nm)
+            self.count("tower_fields_of_cross_newtypes")
+        else:
+            t = self.r.choice([(k,) for k in INTS + ["bool", "uuid", "unit", "string", "f32", "f64"]
+                               if want <= self.env.std_traits(p, (k,))])
+        c = self.r.random()
+        if c < 0.2:
+            return ("option", t)
+        if c < 0.3:
+            return ("array", t, self.r.randint(1, 3))
+        return t
+
+    def tower(self, s, cluster):
+        """2..3 structs/enums with #[rust(impl_*)], each holding the next one, spread over the cluster;
+        the derives of the upper ones only compile when the lower ones (other schema) have theirs"""
+        depth = self.r.randint(2, 3)
+        places = [s]
+        for _ in range(depth - 1):
+            places.append(self.hop(places[-1], self.r.choice("LXX"), cluster))
+        wants = [frozenset(close_derives(self.r.sample(STD, self.r.randint(1, 6))))]
+        for _ in range(depth - 1):
+            w = sorted(wants[-1])
+            wants.append(frozenset(close_derives(self.r.sample(w, self.r.randint(1, len(w))))))
+        wants.reverse()                       # wants[0] (top) is a subset of wants[1] ...
+        lower = None
+        for k in reversed(range(depth)):
+            p, want = places[k], wants[k]
+            types = [self.leaf_with(p, want) for _ in range(self.r.randint(1, 3))]
+            if lower is not None:
+                t = self.xref(p, lower[0], lower[1])
+                wraps = [t, ("option", t), ("array", t, 2)]
+                if "impl_copy" not in want:
+                    wraps += [("box", t), ("vec", t)]
+                types.insert(self.r.randint(0, len(types)), self.r.choice(wraps))
+            used = set()
+            if self.chance(0.6):
+                d = Def("struct", self.type_name(p), fallback=None,
+                        fields=[{"name": self.fresh(used, "snake"), "id": 3 * i + self.r.randint(0, 2),
+                                 "req": self.chance(0.5), "ty": t, "doc": []} for i, t in enumerate(types)])
+            else:
+                d = Def("enum", self.type_name(p), fallback=None,
+                        variants=[{"name": camel(self.fresh(used, "snake")), "id": 0, "ty": None, "doc": []}] +
+                                 [{"name": camel(self.fresh(used, "snake")), "id": 3 * i + self.r.randint(1, 3), "ty": t,
+                                   "doc": []} for i, t in enumerate(types)])
+            d.attrs = [sorted(want)]
+            self.xadd(p, d)
+            lower = (p, d.name)
+        self.count("towers")
+        if len({p.name for p in places}) > 1:
+            self.count("towers_across_schemas")
+
+    def knot(self, s, cluster):
+        """recursion through another schema: s::Node -> x::Wrap -> x::Inner (local name in x) -> s::Node,
+        with at least one of the three edges behind box/vec/map; needs mutual imports"""
+        xs = [q for q in cluster if q is not s and self.can_import(s, q) and self.can_import(q, s)]
+        if not xs:
+            return
+        x = self.r.choice(xs)
+        node, wrap, inner = self.type_name(s), self.type_name(x, True), self.type_name(x, True)
+        breakers = set(self.r.sample([0, 1, 2], self.r.randint(1, 3)))
+
+        def edge(i, t, nullable):
+            if i in breakers:
+                c = [("option", ("box", t)), ("vec", t), ("map", (self.r.choice(KEYS),), t)]
+                if not nullable:
+                    c += [("box", t), (self.r.choice(["sender", "receiver"]), t), ("result", ("box", t), ("u8",))]
+            else:
+                c = [("option", t)]
+                if not nullable:
+                    c += [t, ("array", t, 2), ("result", t, ("string",))]
+            return self.r.choice(c)
+
+        def container(name, t, optional_ok):
+            used = set()
+            c = self.r.random()
+            if c < 0.5:
+                return Def("struct", name, fallback=self.fresh(used, "snake") if self.chance(0.4) else None,
+                           fields=[{"name": self.fresh(used, "snake"), "id": 1, "req": False, "ty": (self.r.choice(LEAVES),),
+                                    "doc": []},
+                                   {"name": self.fresh(used, "snake"), "id": 2, "req": not optional_ok or self.chance(0.5),
+                                    "ty": t, "doc": []}])
+            if c < 0.8:
+                return Def("enum", name, fallback=camel(self.fresh(used, "snake")) if self.chance(0.4) else None,
+                           variants=[{"name": camel(self.fresh(used, "snake")), "id": 0, "ty": None, "doc": []},
+                                     {"name": camel(self.fresh(used, "snake")), "id": 1, "ty": t, "doc": []}])
+            return Def("newtype", name, ty=t)
+
+        # the edge back to s::Node always has an empty value (option/vec/map), so finite values exist
+        di = container(inner, edge(2, self.xref(x, s, node), True), True)
+        dw = container(wrap, edge(1, ("ref", None, inner), False), False)
+        dn = container(node, edge(0, self.xref(s, x, wrap), False), False)
+        if dn.kind == "newtype":
+            dn = Def("struct", node, fallback=None, fields=[{"name": "next", "id": 1, "req": True, "ty": dn.ty, "doc": []}])
+        for p, d in ((x, di), (x, dw), (s, dn)):
+            self.xadd(p, d)
+        self.count("knots")
+        self.count("knot_breaker_edges", "".join(str(b) for b in sorted(breakers)))
+
+    def partners(self, s, window):
+        pref = [w for w in window if w.name in s.imports]
+        rest = [w for w in window if w.name not in s.imports]
+        self.r.shuffle(pref)
+        self.r.shuffle(rest)
+        return (pref + rest)[:2]
+
+    def cross(self, s, window):
+        cluster = [s] + self.partners(s, window)
+        links = []
+        for _ in range(3):
+            c = self.chain(s, cluster)
+            links += [(p, nm, k == 0) for k, (p, nm) in enumerate(c)]
+        for p, nm, head in links:
+            self.use_link(p, nm, head)
+        if self.chance(0.6):
+            self.tower(s, cluster)
+        if self.chance(0.5):
+            self.knot(s, cluster)
+        # definitions of the ordinary grammar (nested generics, fallbacks, inline service types) over the
+        # cross-layer names s can see, local and imported
+        self.bias = self.visible(s)
+        self.bias_keys = self.visible(s, lambda t: self.env.is_key(s, t))
+        if self.bias:
+            d = self.struct(s, self.fresh(s.used, "camel")) if self.chance(0.6) else self.enum(s, self.fresh(s.used, "camel"))
+            if self.chance(0.3):
+                self.add_attrs(s, d)
+            s.defs.append(d)
+            self.count("definitions", d.kind)
+            if self.chance(0.35):
+                s.defs.append(self.service(s, self.fresh(s.used, "camel")))
+                self.count("definitions", "service")
+        self.bias, self.bias_keys = [], []
+        two = [q for q in cluster[1:] if q.name in s.imports and
+               any(i not in s.imports and i != s.name for i in q.imports)]
+        if two:
+            self.count("schemas_with_two_level_imports")
+        if any(s.name in q.imports for q in cluster[1:] if q.name in s.imports):
+            self.count("schemas_in_an_import_cycle")
 
 
 # ---------------------------------------------------------------- old/new pairs
@@ -764,6 +1273,31 @@ def overflow_id_schema(idx, where):
 E_SITES = ["struct_field", "enum_variant", "struct_before_fallback", "enum_before_fallback"]
 
 
+def value_namespace_schema(idx, item, site):
+    """class f: a newtype is generated as a tuple struct and a const as a const item; both names live in
+    Rust's value namespace of the module.  The derive macros bind every struct field to a local of the
+    field's name and every payload variant to a parameter named like the snake-case form of the variant,
+    and an identifier pattern that names a tuple struct / const in scope is rejected (E0530).  The parser
+    only warns about the unconventional case of one of the two names."""
+    s = second_schema("f", idx, item=item, site=site)
+    name = {"struct_field": "limit", "inline_field": "limit", "variant": "limit", "camel_field": "Limit"}[site]
+    first = Def("newtype", name, ty=("u32",)) if item == "newtype" else Def("const", name, ckind="u32", value="5")
+    if site in ("struct_field", "camel_field"):
+        other = Def("struct", "T", fields=[{"name": name, "id": 1, "req": False, "ty": ("u8",), "doc": []}], fallback=None)
+    elif site == "variant":
+        other = Def("enum", "E", variants=[{"name": "Limit", "id": 1, "ty": ("u8",), "doc": []}], fallback=None)
+    else:
+        inline = Def("struct", None, fields=[{"name": name, "id": 1, "req": False, "ty": ("u8",), "doc": []}], fallback=None)
+        other = Def("service", "Svc", uuid="6f0e7a52-2f8b-4e0a-a0c9-0d9d3c3b1f3%x" % (idx % 16), version=1,
+                    items=[{"kind": "fn", "name": "f", "id": 1, "doc": [], "args": inline}], fn_fallback=None,
+                    ev_fallback=None)
+    s.defs = [first, other]
+    return s
+
+
+F_SITES = [(i, s) for i in ("newtype", "const") for s in ("struct_field", "camel_field", "variant", "inline_field")]
+
+
 def second_stream(seed, tier):
     r = random.Random(seed * 7919 + 13)
     out = []
@@ -787,4 +1321,6 @@ def second_stream(seed, tier):
             i += 1
     for i, w in enumerate(E_SITES if tier == "thorough" else r.sample(E_SITES, 2)):
         out.append(overflow_id_schema(i, w))
+    for i, (item, site) in enumerate(F_SITES if tier == "thorough" else r.sample(F_SITES, 2)):
+        out.append(value_namespace_schema(i, item, site))
     return out
